@@ -220,6 +220,8 @@ def plan(tier):
         specs.append({"sub": "index", "kind": "sweep", "cf": cf, "cb": cb, "centre": centre, "base": base,
                       "maxlen": maxlen})
     specs += c13_cli.plan(tier)
+    if tier == "thorough":
+        specs.append({"sub": "index", "kind": "hyp", "examples": 40000, "asan": True})
     return specs
 
 
